@@ -13,9 +13,21 @@
 #define VF_FAMILY 3
 #endif
 
+// BOOST_ASSERT failures inside the library become exceptions the driver records (instead of abort())
+#define BOOST_ENABLE_ASSERT_HANDLER
 #include <string>
 #include <vector>
 #include <any>
+#include <stdexcept>
+namespace vf { struct AssertFailed { std::string what; explicit AssertFailed(const std::string& w) : what(w) {} }; }   // deliberately not a std::exception: the library must not swallow it
+namespace boost {
+inline void assertion_failed(char const* expr, char const* function, char const* file, long line) {
+    (void)function; throw vf::AssertFailed(std::string("BOOST_ASSERT(") + expr + ") failed at " + file + ":" + std::to_string(line));
+}
+inline void assertion_failed_msg(char const* expr, char const* msg, char const* function, char const* file, long line) {
+    (void)function; throw vf::AssertFailed(std::string("BOOST_ASSERT_MSG(") + expr + ", " + msg + ") failed at " + file + ":" + std::to_string(line));
+}
+}
 #include <boost/any.hpp>
 #include <boost/mpl/vector.hpp>
 #include <boost/fusion/include/mpl.hpp>
